@@ -31,7 +31,8 @@ RULE = (
     "of the answers of gtirb's unordered views (CFG.in_edges/out_edges/__iter__, Block.references, Module.symbols / "
     "byte_blocks / code_blocks, ByteInterval.blocks, Section.byte_blocks, symbols_named) is returned reversed or "
     "rotated instead of in canonical order; (3) PYTHONHASHSEED in a fixed set x uuid4 ascending/descending/random in "
-    "fresh processes. states = executions whose final canonical dump was compared; transitions = interception points "
+    "fresh processes, plus every chunk of 60 scenarios once more in reverse order in one interpreter (a result may not depend on "
+    "the rewrites performed before it). states = executions whose final canonical dump was compared; transitions = interception points "
     "exercised; distinct = distinct (scenario, schedule)"
 )
 ASSUMPTIONS = [
@@ -341,17 +342,20 @@ if mode != "random":
 pad = [object() for _ in range(%(pad)d)]   # moves id()-based hashes
 from vf.props import c11
 out = []
-for spec, mods in c11.scenarios(%(tier)r)[%(lo)d:%(hi)d]:
-    out.append(c11.digest(c11.run_dump(spec, mods)))
+scs = c11.scenarios(%(tier)r)[%(lo)d:%(hi)d]
+if %(rev)d:  # the same scenarios in the opposite order: every scenario then has the other half of its chunk as process history
+    out = [c11.digest(c11.run_dump(spec, mods)) for spec, mods in reversed(scs)][::-1]
+else:
+    out = [c11.digest(c11.run_dump(spec, mods)) for spec, mods in scs]
 print(json.dumps(out))
 """
 
 
-def seed_run(tier, lo, hi, hashseed, mode, pad):
+def seed_run(tier, lo, hi, hashseed, mode, pad, rev=0):
     env = dict(os.environ)
     env["PYTHONHASHSEED"] = str(hashseed)
     env["GTIRB_REWRITING_VERIF"] = "1"
-    code = SEED_RUNNER % {"root": os.path.dirname(os.path.dirname(os.path.dirname(os.path.abspath(__file__)))), "mode": mode, "pad": pad, "tier": tier, "lo": lo, "hi": hi}
+    code = SEED_RUNNER % {"root": os.path.dirname(os.path.dirname(os.path.dirname(os.path.abspath(__file__)))), "mode": mode, "pad": pad, "tier": tier, "lo": lo, "hi": hi, "rev": rev}
     p = subprocess.run([sys.executable, "-c", code], capture_output=True, text=True, env=env, timeout=900)
     if p.returncode != 0:
         raise RuntimeError("seed sub-process failed: " + p.stderr[-400:])
@@ -391,6 +395,11 @@ def run_task(task):
                 runs[(hs, um)] = seed_run(tier, lo, hi, hs, um, pad)
                 res.states += hi - lo
                 res.traces += hi - lo
+        # the chunk once more in reverse order (first seed, ascending uuids): a scenario's result may not depend on which
+        # other rewrites the interpreter performed before it
+        runs[(seeds[0], "asc-reversed-order")] = seed_run(tier, lo, hi, seeds[0], "asc", 0, rev=1)
+        res.states += hi - lo
+        res.traces += hi - lo
         ref_key = sorted(runs)[0]
         for i in range(hi - lo):
             vals = {k: v[i] for k, v in runs.items()}
@@ -448,7 +457,16 @@ def replay(case):
         return []
     if case["kind"] == "seeds":
         i = case["index"]
-        runs = {tuple(k): seed_run(case["tier"], i, i + 1, k[0], k[1], {"asc": 0, "desc": 7, "random": 131}[k[1]]) for k in case["runs"]}
+        plain = [k for k in case["runs"] if k[1] in ("asc", "desc", "random")]
+        runs = {tuple(k): seed_run(case["tier"], i, i + 1, k[0], k[1], {"asc": 0, "desc": 7, "random": 131}[k[1]]) for k in plain}
+        if len(plain) != len(case["runs"]):
+            # the reversed-order run: replay the whole chunk the scenario belongs to, both ways
+            lo = (i // 60) * 60
+            hi = min(lo + 60, len(scs))
+            fwd = seed_run(case["tier"], lo, hi, plain[0][0], "asc", 0)
+            bwd = seed_run(case["tier"], lo, hi, plain[0][0], "asc", 0, rev=1)
+            runs[("order", "fwd")] = [fwd[i - lo]]
+            runs[("order", "bwd")] = [bwd[i - lo]]
         if len({v[0] for v in runs.values()}) != 1:
             return _tag(scs[i][0], [C.D("result-depends-on-hash-seed-or-uuids")], scs[i][1])
         return []
